@@ -305,7 +305,9 @@ def linearize_measure_contents(part, start, end, state):
 
     for i in range(1, len(splits)):
         contents.extend(
-            linearize_segment_contents(part, splits[i - 1], splits[i], state)
+            linearize_segment_contents(
+                part, splits[i - 1], splits[i], state, last=(i == len(splits) - 1)
+            )
         )
 
     return contents
@@ -412,7 +414,7 @@ def remove_voice_polyphony(notes_by_voice):
 #                 part.add(rest, note.end.t, end.t)
 
 
-def linearize_segment_contents(part, start, end, state):
+def linearize_segment_contents(part, start, end, state, last=True):
     """
     Determine the document order of events starting between `start` (inclusive)
     and `end` (exlusive).
@@ -488,7 +490,7 @@ def linearize_segment_contents(part, start, end, state):
 
     other_e = harmony_e + attributes_e + directions_e + barline_e + prints_e
 
-    contents = merge_measure_contents(voices_e, other_e, start.t)
+    contents = merge_measure_contents(voices_e, other_e, start.t, end.t, last)
 
     return contents
 
@@ -655,7 +657,7 @@ def merge_with_voice(notes, other, measure_start):
     return result, fb_cost
 
 
-def merge_measure_contents(notes, other, measure_start):
+def merge_measure_contents(notes, other, measure_start, measure_end=None, last=True):
     merged = {}
     # cost (measured as the total forward/backup jumps needed to merge) all
     # elements in `other` into each voice
@@ -683,6 +685,7 @@ def merge_measure_contents(notes, other, measure_start):
     # merge_voice = sorted(cost.items(), key=itemgetter(1))[0][0]
     result = []
     pos = measure_start
+    max_pos = measure_start
     for i, voice in enumerate(sorted(notes.keys())):
         if i == 0:  # voice == merge_voice:
             elements = merged[voice]
@@ -711,6 +714,24 @@ def merge_measure_contents(notes, other, measure_start):
         # update current position
         if elements:
             pos = elements[-1][0] + (elements[-1][1] or 0)
+            max_pos = max(
+                [max_pos] + [onset + (dur or 0) for onset, dur, _ in elements]
+            )
+
+    # make the extent of the measure explicit if its contents do not: a reader
+    # takes the furthest position reached as the end of the measure, and the
+    # next divisions segment of the same measure starts at the current position
+    if measure_end is not None:
+        gap = 0
+        if last and max_pos < measure_end:
+            gap = measure_end - pos
+        elif not last:
+            gap = measure_end - pos
+        if gap != 0:
+            e = etree.Element("forward" if gap > 0 else "backup")
+            ee = etree.SubElement(e, "duration")
+            ee.text = "{:d}".format(int(abs(gap)))
+            result.append(e)
 
     return result
 
